@@ -74,7 +74,10 @@ def int_values(kind):
 
 FLOAT_SPECIALS = [0.0, -0.0, 1.0, -1.0, 1.5, -2.25, 0.1, 100.0, -100.0,
                   1e-310, -1e-310, 5e-324, 1.797e308, -1.797e308, 3.0, 7.0,
-                  1e15 + 0.5, 0.30000000000000004, 123456.789, 'inf', '-inf']
+                  1e15 + 0.5, 0.30000000000000004, 123456.789, 'inf', '-inf',
+                  # a few ulps off a whole number
+                  3.0000000000000004, 110.00000000000001, -3.0000000000000004,
+                  0.9999999999999999, 2.0000000000000004]
 FLOAT32_SPECIALS = [0.0, -0.0, 1.0, -1.0, 1.5, -2.25, 100.0, 3.0, 0.5,
                     3.4028234663852886e38, -3.4028234663852886e38,
                     1.401298464324817e-45, 16777216.0, 'inf', '-inf']
